@@ -268,6 +268,80 @@ ListStyles == {"rev", "single", "dup", "overlap"}
 Styles(f) == CASE f = "hwloc" -> HwlocStyles [] f = "list" -> ListStyles [] f = "taskset" -> TasksetStyles
 Variant(f, v, style) == CASE f = "hwloc" -> HwlocVar(v, style) [] f = "list" -> ListVar(v, style) [] f = "taskset" -> TasksetVar(v, style)
 
+(* ------------------- the length of the text as a dimension -------------- *)
+(* The statement quantifies over all bitmaps; what a printer, an asprintf    *)
+(* wrapper or a parser does may depend on how LONG the text is (a fixed     *)
+(* intermediate buffer, a size computed in a first pass, a chunked copy),   *)
+(* whatever the words of the bitmap look like.  The ladder of a format is   *)
+(* a set of values whose canonical texts take, between them, every length   *)
+(* the format can produce up to a bound (generation only, never judged).    *)
+(* Candidates are regular sets given by a descriptor <<a, b, c, d>> of four *)
+(* integers; DescLen is the length the grammar gives their text (counted on *)
+(* the descriptor, so that thousands of candidates need not be rendered);   *)
+(* the model keeps one candidate per (length, finite/infinite) and checks   *)
+(* on each of them that the printer of this module agrees (LadderLaw).      *)
+(***************************************************************************)
+\* list <<s, n, w, tail>>: n items of w consecutive indexes, one index apart, from s on; tail = 1: the last item runs to infinity
+StrideRanges(s, n, w, tail) ==
+  [k \in 1..n |-> LET a == s + (k - 1) * (w + 1) IN <<a, IF tail = 1 /\ k = n THEN -1 ELSE a + w - 1>>]
+RECURSIVE SumItemLen(_, _)
+SumItemLen(rs, k) == IF k = 0 THEN 0 ELSE Len(RangeTxt(rs[k])) + SumItemLen(rs, k - 1)
+\* items and the commas between them
+ListLenOf(rs) == IF Len(rs) = 0 THEN 0 ELSE SumItemLen(rs, Len(rs)) + Len(rs) - 1
+\* an item costs at least 3 characters ("10,") except the few below 10: n <= maxlen/3 + 5 reaches every length <= maxlen
+ListDescs(maxlen) == {<<s, n, w, tl>> : s \in {0, 2, 4, 6, 8, 10}, n \in 0..(maxlen \div 3 + 5), w \in 1..2, tl \in 0..1}
+
+\* taskset <<kind, k, dense, 0>>: kind 0 the empty set, 1 the full set;
+\* kind 2, finite: k digits, the most significant one is 1 (all the others 0) or, dense, f (all the others f);
+\* kind 3, infinite: the digits of k+1 whole groups after the prefix, the top one fffffffe, the lower ones all zero or, dense, all full
+TasksetDescs(maxlen) == {<<0, 0, 0, 0>>, <<1, 0, 0, 0>>}
+                        \cup {<<2, k, dense, 0>> : k \in 1..Max2(1, maxlen - 2), dense \in 0..1}
+                        \cup {<<3, g, dense, 0>> : g \in 0..(maxlen \div 8), dense \in 0..1}
+TasksetDescVal(d) ==
+  CASE d[1] = 0 -> Empty
+    [] d[1] = 1 -> Full
+    [] d[1] = 2 -> [fin |-> IF d[3] = 1 THEN 0..(4 * d[2] - 1) ELSE {4 * (d[2] - 1)}, inf |-> FALSE, n |-> RoundUp32(4 * d[2])]
+    [] d[1] = 3 -> [fin |-> (IF d[3] = 1 THEN 0..(32 * d[2] - 1) ELSE {}) \cup ((32 * d[2] + 1)..(32 * d[2] + 31)), inf |-> TRUE, n |-> 32 * (d[2] + 1)]
+TasksetDescLen(d) == CASE d[1] = 0 -> 3 [] d[1] = 1 -> 7 [] d[1] = 2 -> 2 + d[2] [] d[1] = 3 -> 7 + 8 * (d[2] + 1)
+
+\* hwloc <<t, m, low, inf>>: top written group t (t = -1: none, the empty or the full set); one bit of it is set, so that
+\* it is neither zero nor full, or (low >= 2, infinite sets only) it is zero; the m < t groups 1..m are full, group 0 is
+\* full (low odd) or zero: the text has t commas, 1 + m (+ 1) groups of ten characters, nothing for a zero group above
+\* group 0, "0x0" for a zero group 0, and the "0xf...f," prefix of an infinite set
+HwlocDescs(maxlen) ==
+  {<<-1, 0, 0, inf>> : inf \in 0..1}
+  \cup {<<tm[1], tm[2], li[1], li[2]>> :
+          tm \in {x \in (0..(maxlen \div 8 + 2)) \X (0..(maxlen \div 10)) : x[2] < Max2(x[1], 1)},
+          li \in {x \in (0..3) \X (0..1) : x[1] >= 2 => x[2] = 1}}
+HwlocDescVal(d) ==
+  IF d[1] = -1 THEN (IF d[4] = 1 THEN Full ELSE Empty)
+  ELSE [fin |-> (IF d[3] >= 2 THEN {} ELSE {32 * d[1]}) \cup (IF d[3] % 2 = 1 /\ d[1] > 0 THEN 0..31 ELSE {})
+                \cup (IF d[2] > 0 THEN 32..(32 * d[2] + 31) ELSE {}),
+        inf |-> d[4] = 1, n |-> 32 * (d[1] + 1)]
+HwlocDescLen(d) ==
+  IF d[1] = -1 THEN (IF d[4] = 1 THEN 7 ELSE 3)
+  ELSE (IF d[4] = 1 THEN 8 ELSE 0) + d[1] + 10 * d[2]
+       + (IF d[3] < 2 THEN 10 ELSE IF d[1] = 0 THEN 3 ELSE 0)
+       + (IF d[1] = 0 THEN 0 ELSE IF d[3] % 2 = 1 THEN 10 ELSE 3)
+
+Descs(f, maxlen) == CASE f = "list" -> ListDescs(maxlen) [] f = "taskset" -> TasksetDescs(maxlen) [] f = "hwloc" -> HwlocDescs(maxlen)
+DescVal(f, d) == CASE f = "list" -> FromRanges(StrideRanges(d[1], d[2], d[3], d[4])) [] f = "taskset" -> TasksetDescVal(d) [] f = "hwloc" -> HwlocDescVal(d)
+DescLen(f, d) == CASE f = "list" -> ListLenOf(StrideRanges(d[1], d[2], d[3], d[4])) [] f = "taskset" -> TasksetDescLen(d) [] f = "hwloc" -> HwlocDescLen(d)
+DescInf(f, d) == CASE f = "list" -> d[4] = 1 /\ d[2] > 0 [] f = "taskset" -> d[1] \in {1, 3} [] f = "hwloc" -> d[4] = 1
+\* <<length, infinite, value>>: one candidate per (length of the text, finite/infinite)
+Ladder(f, maxlen) ==
+  LET P == {<<DescLen(f, d), DescInf(f, d), d>> : d \in Descs(f, maxlen)}
+      K == {<<p[1], p[2]>> : p \in {q \in P : q[1] <= maxlen}}
+      One(k) == CHOOSE p \in P : p[1] = k[1] /\ p[2] = k[2]
+  IN {<<k[1], k[2], DescVal(f, One(k)[3])>> : k \in K}
+\* the lengths each documented output language allows (read off the grammars of the parsers above):
+\* list: every length; taskset: "0x" and at least one digit; hwloc: "0x0", "0xf...f", or groups of ten characters,
+\* commas and possibly "0x0": nothing between "0x0", "0xf...f", one group, and "0xf...f,0x0"
+LadderNeeds(f, maxlen) ==
+  CASE f = "list" -> 0..maxlen
+    [] f = "taskset" -> 3..maxlen
+    [] f = "hwloc" -> ({3, 7, 10} \cup (11..maxlen)) \cap (0..maxlen)
+
 (* --------- laws of this oracle itself (checked by TLC on the model) ----- *)
 RoundTripLaw(v) == \A f \in Fmts :
   /\ OutOK(f, Render(f, v), v)                                   \* canonical text is in the output language and denotes v
